@@ -95,7 +95,14 @@ def _txn(rng, g, nkeys, nvals, mapping, focus=None):
         elif r < 0.42:
             out.append(["@leaf_fill", rng.randrange(64),
                         rng.randrange(nvals)])
-        elif r < 0.45:
+        elif r < 0.43:
+            # a node changed and changed back inside one transaction: fill a
+            # leaf until it splits, then delete everything the new leaf got
+            # (it is unlinked again; the parent is registered with the
+            # state it had, the old leaf keeps a lasting change)
+            out.append(["@split_unsplit", rng.randrange(64),
+                        rng.randrange(nvals)])
+        elif r < 0.46:
             out.append(["clear"])
         elif r < 0.52:
             # a pure read inside the transaction (monitor: declares nothing)
@@ -236,7 +243,7 @@ def simplify(plan):
 
 # ---------------------------------------------------------------------------
 
-def _resolve_symbolic(txn, base_walk, dom, mapping, model_d):
+def _resolve_symbolic(txn, base_walk, dom, mapping, model_d, max_leaf=None):
     """turn @-operations into concrete ones using the base tree's leaves"""
     leaves = []
     for b in base_walk.leaves:
@@ -276,6 +283,19 @@ def _resolve_symbolic(txn, base_walk, dom, mapping, model_d):
         elif name == "@leaf_empty":
             for k in lf:
                 out.append(["del" if mapping else "remove", k])
+        elif name == "@split_unsplit" and max_leaf:
+            j = op[1] % len(leaves)
+            hi = leaves[j + 1][0] if j + 1 < len(leaves) else dom.nkeys
+            free = [k for k in range(lf[-1] + 1, hi) if k not in model_d]
+            need = max_leaf + 1 - len(lf)
+            if 0 < need <= len(free):
+                ins = free[:need]
+                allk = sorted(lf + ins)
+                upper = allk[len(allk) // 2:]
+                for k in ins:
+                    out.append(["set", k, op[2]] if mapping else ["add", k])
+                for k in reversed(upper):
+                    out.append(["del" if mapping else "remove", k])
         elif name == "@leaf_fill":
             j = op[1] % len(leaves)
             lo = lf[0]
@@ -489,7 +509,8 @@ def _one_order(plan, order, ctx, tag):
     for i, txn in enumerate(plan["txns"]):
         conn = SimConnection(st, impl)
         tree = conn.get(oid)
-        concrete = _resolve_symbolic(txn, base_walk, dom, mapping, B)
+        concrete = _resolve_symbolic(txn, base_walk, dom, mapping, B,
+                                     common.sizes(cfg)[0])
         shadow = None
         if (plan.get("cold", 0) >> i) & 1:
             shadow = SimConnection(st, impl).get(oid)
@@ -642,7 +663,8 @@ def _long_run(plan, ctx):
             if shape0 is None:
                 shape0 = vw.shape
                 ctx.shape(vw.shape)
-            concrete = _resolve_symbolic(txn, vw, dom, mapping, Bi)
+            concrete = _resolve_symbolic(txn, vw, dom, mapping, Bi,
+                                         common.sizes(cfg)[0])
             cold = (plan.get("cold", 0) >> i) & 1
             shadow = view if cold else None
             who = "r%d-t%d" % (rno, i)
